@@ -284,7 +284,7 @@ def op_edits(case, vio):
                         new["ops"] = ops[:i] + [o2] + ops[i + 1:]
                         yield f"drop thread op {t}.{j}", new
         else:
-            for key in ("kw", "dialect", "dd", "abort_at"):
+            for key in ("kw", "dialect", "dd", "abort_at", "abort_gen"):
                 if key in op:
                     o2 = {k: v for k, v in op.items() if k != key}
                     new = dict(case)
